@@ -13,7 +13,7 @@ ASSUMPTIONS = [
     'repeats made unique by a numeric suffix; the documented sanitisation is the independent implementation of C17',
 ]
 
-NAMES = ['x', 'y', None, 'A b', 'sum', 'x', '', '1st']
+NAMES = ['x', 'y', None, 'A b', 'sum', 'x', '', '1st', 'x_sum', 'key']
 NN = len(NAMES)
 
 BIN = {'add': operator.add, 'sub': operator.sub, 'mul': operator.mul, 'truediv': operator.truediv, 'floordiv': operator.floordiv, 'mod': operator.mod, 'pow': operator.pow,
@@ -89,7 +89,7 @@ def _tarith_body(opi, a, b, c, d, tt):
 
 def h_table_arith(opi: int, a: int, b: int, c: int, d: int) -> bool:
     """
-    pre: 0 <= opi < len(ARITH) and 0 <= a < NN and 0 <= b < NN and 0 <= c < NN and 0 <= d < NN
+    pre: 0 <= opi < len(ARITH) and 0 <= a < 8 and 0 <= b < 8 and 0 <= c < 8 and 0 <= d < 8
     pre: H.cfg('tt') or (c == 0 and d == 0)
     pre: H.fix(opi=opi)
     post: _
@@ -277,7 +277,7 @@ def _agg_body(win, k0, k1, c0, c1, twokeys, pattern):
 
 def h_agg(k0: int, k1: int, c0: int, c1: int, twokeys: bool, pattern: int) -> bool:
     """
-    pre: 0 <= k0 < NN and 0 <= k1 < NN and 0 <= c0 < NN and 0 <= c1 < NN and 0 <= pattern <= 6
+    pre: 0 <= k0 < NN and 0 <= k1 < 6 and 0 <= c0 < NN and 0 <= c1 < 5 and 0 <= pattern <= 6
     pre: twokeys or k1 == 0
     pre: H.fix(pattern=pattern)
     post: _
